@@ -98,4 +98,14 @@ PROPS = {
         "assumptions": ["definitions re-implemented in long double (binomials, Cox-de Boor, three-term recurrences, exact antiderivatives with stable roots)",
                         "verdict covers only the executions sampled; the search sweep over length <= 8 is exhaustive"],
     },
+    "C10": {
+        "units": [{"name": "c10", "src": "harness/c10.cpp", "flavor": "asan", "shards": {"quick": 8, "thorough": 16}}],
+        "rule": "cases = random (J, d, r, lambda): shapes 1..40 x 1..40 (tall/wide/square), entries over 6 decades, dense and sparse "
+                "(density 5%..100%, explicit zeros), exact rank deficiency (duplicate / zero / dependent columns, zero rows, rank 1), "
+                "d in 1e-6..1e3, lambda = 1/Delta in 1e-6..1e6; plus static 6x3; distinct = distinct (J,r) bit patterns (all non-trivial)",
+        "floors": {"min_evaluations": {"quick": 50000, "thorough": 1000000},
+                   "cells": [r"ldlt\.sparse\.normal_equations\|dup_col", r"ldlt\.dense\.dphi\|", r"trust_region\.sparse\.no_increase\|wide", r"colwise_norm\.sparse"]},
+        "assumptions": ["reference = long-double normal equations solved with full-pivoting LU; condition number by power/inverse iteration in long double",
+                        "verdict covers only the executions sampled"],
+    },
 }
